@@ -135,6 +135,53 @@ theorem pipeline_absorbs_2 (stale : Nat) (h : stale ≤ 2) :
     intro r _ hr
     exact (pipelineAllow_iff r).mpr (by omega))]
 
+/-! ### The history of a pooled connection does not matter -/
+
+/-- A connection found in the pool (idle, or in use by others): `carriedAQuery = false` is a connection
+that never carried a query - a dial that finished after the caller that asked for it had given up leaves
+its connection in the pool -, `alive = false` one the server has dropped without the transport knowing. -/
+structure PooledConn where
+  carriedAQuery : Bool
+  alive : Bool
+  deriving DecidableEq, Repr
+
+/-- the turns of a call that is handed these connections one after the other: each is a `pooled` turn,
+whatever its history -/
+def envOfPool (pool : List PooledConn) : List Turn := pool.map (fun c => .pooled c.alive false)
+
+/-- **Any pool, any histories**: if a retry is allowed after each of the (at most `pool.length`) failures,
+the call succeeds - on the first live pooled connection or on the connection dialed for it. -/
+theorem success_any_history (allow : Nat → Bool) (cc : Bool) (pool : List PooledConn) :
+    ∀ (retry n : Nat), (∀ r, retry ≤ r → r < retry + pool.length → allow r = true) →
+      (loop allow cc (envOfPool pool ++ [.fresh true]) retry n).outcome = .ok := by
+  induction pool with
+  | nil => intro retry n _; simp [envOfPool, loop]
+  | cons c rest ih =>
+    intro retry n h
+    cases hc : c.alive with
+    | true => simp [envOfPool, loop, hc]
+    | false =>
+      have h0 : allow retry = true := h retry (Nat.le_refl _) (by simp only [List.length_cons]; omega)
+      have := ih (retry + 1) (n + 1) (fun r hr1 hr2 => h r (by omega) (by simp only [List.length_cons]; omega))
+      simp only [envOfPool, List.map_cons, List.cons_append, hc, loop, h0, Bool.and_false, Bool.not_false,
+        Bool.and_self, if_true] at this ⊢
+      exact this
+
+theorem reuse_absorbs_any_history (pool : List PooledConn) (h : pool.length ≤ 3) :
+    (loop reuseAllow false (envOfPool pool ++ [.fresh true]) 0 0).outcome = .ok :=
+  success_any_history reuseAllow false pool 0 0 (by
+    intro r _ hr
+    exact (reuseAllow_iff r).mpr (by omega))
+
+theorem pipeline_absorbs_any_history (pool : List PooledConn) (h : pool.length ≤ 2) :
+    (loop pipelineAllow true (envOfPool pool ++ [.fresh true]) 0 0).outcome = .ok :=
+  success_any_history pipelineAllow true pool 0 0 (by
+    intro r _ hr
+    exact (pipelineAllow_iff r).mpr (by omega))
+
+/-- a pooled connection that never carried a query and was dropped by the server, then a working fresh one -/
+example : loop reuseAllow false (envOfPool [⟨false, false⟩] ++ [.fresh true]) 0 0 = ⟨.ok, 2, false⟩ := by decide
+
 /-! ### Guards over the other regenerated facts -/
 theorem facts_guard :
     Gen.Facts.c08ReuseRetryOnlyIfReused = some true ∧ Gen.Facts.c08PipelineRetryOnlyIfReusedAndCtxAlive = some true ∧
